@@ -112,6 +112,18 @@ def bounded(params):
             bad = [f"raised {type(e).__name__}: {e}"[:160]]
         if bad and len(failures) < 5:
             failures.append({"input": {"groups": g, "metrics": m, "rows": rows}, "problems": bad[:3], "replay_kind": "c20.e2e"})
+    # numerically delicate columns: values large against their spread, and a constant that is not a binary fraction (a summary must
+    # still be the statistic of the recorded values -- numpy's two-pass np.std is, a one-pass E[x^2]-E[x]^2 is not)
+    for cells in (["100000000.0", "100000001.0", "100000002.0"], ["0.7", "0.7", "0.7", "0.7"], ["1e8", "100000000.5", "", "100000001.0"], ["12345678.9", "12345678.9"]):
+        rows = [(f"s{i}", [c, "1.0"]) for i, c in enumerate(cells)]
+        evals += 1
+        nontriv += 1
+        try:
+            bad = check_table(["g"], ["ma", "mb"], rows)
+        except Exception as e:
+            bad = [f"raised {type(e).__name__}: {e}"[:160]]
+        if bad and len(failures) < 5:
+            failures.append({"input": {"groups": ["g"], "metrics": ["ma", "mb"], "rows": rows}, "problems": bad[:3], "replay_kind": "c20.e2e"})
     return {"evaluations": evals, "distinct_nontrivial": nontriv, "failures": failures,
             "rule": "seeded random tables (1-3 groups, 1-3 metrics, 1-7 subjects, cells missing/nan/inf/finite) written as .tsv and loaded with from_file; get/summary/per-subject/across-groups compared with directly computed statistics; non-trivial = at least one finite value",
             "bound": "<= 3x3x7 tables; quick 60"}
